@@ -105,31 +105,25 @@ fn commit_follows_rule<const W: usize>(np: usize, hr: usize) {
 /// the same for a matrix over the quadratic extension (the auxiliary-trace and constraint-composition
 /// commitments): W extension columns = 2W base elements per row, partition size counted in columns
 fn commit_follows_rule_quad<const W: usize>(np: usize, hr: usize) {
-    use math::fields::QuadExtension;
+    use math::{fields::QuadExtension, FieldElement};
     type Q = QuadExtension<F64>;
     mk::reset();
     let mut data = Vec::new();
-    let mut bytes = [[0u8; 48]; 2];
-    let mut r = 0;
-    while r < 2 {
-        let mut i = 0;
-        while i < 2 * W {
-            let v = vs::any_u64();
-            vs::assume(v < 0xffffffff00000001);
-            data.push(F64::from_mont(v));
-            bytes[r][8 * i..8 * i + 8].copy_from_slice(&v.to_le_bytes());
-            i += 1;
-        }
-        r += 1;
+    let mut i = 0;
+    while i < 4 * W {
+        let v = vs::any_u64();
+        vs::assume(v < 0xffffffff00000001);
+        data.push(F64::from_mont(v));
+        i += 1;
     }
     let m = RowMatrix::<Q> { data, row_width: 2 * W, elements_per_row: 2 * W };
     let po = PartitionOptions::new(np, hr);
     // the partition size the verifier computes for this commitment: in columns of the extension field
     let p = po.partition_size::<Q>(W);
     let _vc: RecVC = m.commit_to_rows::<HR, RecVC>(po);
-    let s0 = mk::rowhash_spec(0, &bytes[0][..16 * W], 16, p);
-    let ok = match s0 {
-        Some((n0, out0)) => match mk::rowhash_spec(n0, &bytes[1][..16 * W], 16, p) {
+    let (r0, r1) = (Q::elements_as_bytes(m.row(0)), Q::elements_as_bytes(m.row(1)));
+    let ok = match mk::rowhash_spec(0, r0, 16, p) {
+        Some((n0, out0)) => match mk::rowhash_spec(n0, r1, 16, p) {
             Some((n1, out1)) => unsafe {
                 n1 == mk::calls() && N_ITEMS == 2 && ITEMS[0][..DN] == out0 && ITEMS[1][..DN] == out1
             },
